@@ -50,7 +50,7 @@ package satisfaction
 
 // the fallback thresholds: the worst end of every criterion's range (declared range first, else observed over all known alternatives)
 //@ func weightsSupplier$1
-//@   property C13 C01 C09
+//@   property C13 C01 C09 C14
 //@   ensures [worst_of_declared_range] fresh(result) && forall k int :: 0 <= k && k < len(dmp.Criteria) && dmp.Criteria[k].ValuesRange != nil
 //@             && (forall j int :: k < j && j < len(dmp.Criteria) ==> dmp.Criteria[j].Id != dmp.Criteria[k].Id) ==>
 //@             dmp.Criteria[k].Id in result && result[dmp.Criteria[k].Id] == (dmp.Criteria[k].Type == model.Cost ? dmp.Criteria[k].ValuesRange.Max : dmp.Criteria[k].ValuesRange.Min)
@@ -68,6 +68,10 @@ package satisfaction
 //@ pred fromInput(x model.AlternativeWithCriteria, current model.AlternativeWithCriteria, considered []model.AlternativeWithCriteria) =
 //@      x == current || exists j int :: 0 <= j && j < len(considered) && x == considered[j]
 
+// before: x is examined before y in the search order (the current choice first, then the considered ones as given)
+//@ pred before(x model.AlternativeWithCriteria, y model.AlternativeWithCriteria, current model.AlternativeWithCriteria, considered []model.AlternativeWithCriteria) =
+//@      (x.Id == current.Id && y.Id != current.Id) || exists i int, j int :: 0 <= i && i < j && j < len(considered) && considered[i].Id == x.Id && considered[j].Id == y.Id
+
 //@ func checkWithinSatisfactionLevels
 //@   property C13 C01 C09
 //@   requires [distinct_search_order] distinctIds(considered) && forall j int :: 0 <= j && j < len(considered) ==> considered[j].Id != current.Id
@@ -79,6 +83,9 @@ package satisfaction
 //@   ensures [accepted_really_satisfy] forall k int :: 0 <= k && k < result3 ==> meets(result1[k].Alternative, dmp.Criteria, result1[k].Evaluation.(SatisfactionEvaluation).SatisfiedThresholds)
 //@   ensures [acceptance_order] forall k int, m int :: 0 <= k && k < m && m < result3 ==> result1[k].Evaluation.(SatisfactionEvaluation).ThresholdsIndex <= result1[m].Evaluation.(SatisfactionEvaluation).ThresholdsIndex
 //@   ensures [left_are_inputs] forall k int :: 0 <= k && k < len(result0) ==> fromInput(result0[k], current, considered)
+//@   ensures [examined_in_search_order] (forall a int, b int :: 0 <= a && a < b && b < len(result0) ==> before(result0[a], result0[b], current, considered))
+//@             && forall k int, m int :: 0 <= k && k < m && m < result3 && result1[k].Evaluation.(SatisfactionEvaluation).ThresholdsIndex == result1[m].Evaluation.(SatisfactionEvaluation).ThresholdsIndex
+//@                  ==> before(result1[k].Alternative, result1[m].Alternative, current, considered)
 //@   loop 1 invariant [ctx] fresh(result) && fresh(resultIds) && len(result) == 1 + len(considered) && len(resultIds) == 1 + len(considered) && thresholdIndex >= -1
 //@   loop 1 invariant [count] 0 <= resultInsertIndex && resultInsertIndex + len(leftToChoice) == 1 + len(considered) && distinctIds(leftToChoice)
 //@   loop 1 invariant [accepted] forall k int :: 0 <= k && k < resultInsertIndex ==> typeis(result[k].Evaluation, SatisfactionEvaluation) && resultIds[k] == result[k].Alternative.Id
@@ -87,6 +94,9 @@ package satisfaction
 //@   loop 1 invariant [satisfy] forall k int :: 0 <= k && k < resultInsertIndex ==> meets(result[k].Alternative, dmp.Criteria, result[k].Evaluation.(SatisfactionEvaluation).SatisfiedThresholds)
 //@   loop 1 invariant [order] forall k int, m int :: 0 <= k && k < m && m < resultInsertIndex ==> result[k].Evaluation.(SatisfactionEvaluation).ThresholdsIndex <= result[m].Evaluation.(SatisfactionEvaluation).ThresholdsIndex
 //@   loop 1 invariant [left] forall k int :: 0 <= k && k < len(leftToChoice) ==> fromInput(leftToChoice[k], current, considered)
+//@   loop 1 invariant [search_order] forall a int, b int :: 0 <= a && a < b && b < len(leftToChoice) ==> before(leftToChoice[a], leftToChoice[b], current, considered)
+//@   loop 1 invariant [accepted_in_search_order] forall k int, m int :: 0 <= k && k < m && m < resultInsertIndex && result[k].Evaluation.(SatisfactionEvaluation).ThresholdsIndex == result[m].Evaluation.(SatisfactionEvaluation).ThresholdsIndex
+//@                  ==> before(result[k].Alternative, result[m].Alternative, current, considered)
 //@   loop 2 invariant [ctx] fresh(result) && fresh(resultIds) && len(result) == 1 + len(considered) && len(resultIds) == 1 + len(considered) && thresholdIndex >= 0
 //@             && len(*thresholds) == len(dmp.Criteria) && forall c int :: 0 <= c && c < len(dmp.Criteria) ==> (*thresholds)[c].Criterion == dmp.Criteria[c] && (*thresholds)[c].Weight == t[dmp.Criteria[c].Id]
 //@   loop 2 invariant [scan] len(tempLeftToChoice) <= len(leftToChoice) && len(leftToChoice) - len(tempLeftToChoice) <= iter && fresh(tempLeftToChoice) && arr(tempLeftToChoice) != arr(leftToChoice)
@@ -99,6 +109,12 @@ package satisfaction
 //@   loop 2 invariant [satisfy] forall k int :: 0 <= k && k < resultInsertIndex ==> meets(result[k].Alternative, dmp.Criteria, result[k].Evaluation.(SatisfactionEvaluation).SatisfiedThresholds)
 //@   loop 2 invariant [order] forall k int, m int :: 0 <= k && k < m && m < resultInsertIndex ==> result[k].Evaluation.(SatisfactionEvaluation).ThresholdsIndex <= result[m].Evaluation.(SatisfactionEvaluation).ThresholdsIndex
 //@   loop 2 invariant [left] forall k int :: 0 <= k && k < len(leftToChoice) ==> fromInput(leftToChoice[k], current, considered)
+//@   loop 2 invariant [search_order] (forall a int, b int :: 0 <= a && a < b && b < len(leftToChoice) ==> before(leftToChoice[a], leftToChoice[b], current, considered))
+//@             && forall a int, b int :: 0 <= a && a < b && b < len(tempLeftToChoice) ==> before(tempLeftToChoice[a], tempLeftToChoice[b], current, considered)
+//@   loop 2 invariant [accepted_in_search_order] forall k int, m int :: 0 <= k && k < m && m < resultInsertIndex && result[k].Evaluation.(SatisfactionEvaluation).ThresholdsIndex == result[m].Evaluation.(SatisfactionEvaluation).ThresholdsIndex
+//@                  ==> before(result[k].Alternative, result[m].Alternative, current, considered)
+//@   loop 2 invariant [this_level_from_the_scanned_part] forall k int :: 0 <= k && k < resultInsertIndex && result[k].Evaluation.(SatisfactionEvaluation).ThresholdsIndex == thresholdIndex
+//@                  ==> exists j int :: 0 <= j && j < iter && result[k].Alternative == leftToChoice[j]
 
 // the alternatives that met no level: appended after the accepted ones, in order, with the index after the last level and
 // the fallback thresholds
